@@ -291,6 +291,92 @@ def run_reshape_representation(ctx):
             ctx.disagree('Rs.reshape: representation of the result', case, want, ' '.join(mp))
 
 
+def run_shape_representation(ctx):
+    """the model `Sh.*` (FggsModel/ShapeOps.lean) of __getitem__ (Axis.index), permute, transpose, T, flatten, unsqueeze, expand and any
+    predicts the REPRESENTATION of the result (or that the call raises), compared token by token up to a renaming of the physical axes;
+    the dense meaning of every result is compared with torch by the op table above"""
+    from .unifygen import canon
+    from .common import enc_ext
+    reqs, meta = [], []
+    def enc(p_, ids):
+        pa = enc_list(p_.paxes, lambda k_: f'{ids.setdefault(id(k_), len(ids))} {k_._numel}')
+        va = enc_list(p_.vaxes, lambda e: ptgen.enc_axis(e, ids))
+        ph = p_.physical.to(torch.float64) if p_.physical.dtype == torch.bool else p_.physical
+        return f'{enc_list(ph.contiguous().reshape(-1).tolist() if ph.numel() else [], enc_ext)} {pa} {va} {enc_ext(float(p_.default))}'
+    def job(name, t, args, f):
+        ids = {}
+        et = enc(t, ids)
+        case = dict(op=name, operand=et, args=args)
+        try:
+            r = f(t); out = 'ok'
+        except VerifInvariantError as e:
+            ctx.fail(f'{name}: the library constructed a PatternedTensor that violates the representation invariant: {e}', case, repr(e), None,
+                     tags=['invariant', name])
+            return
+        except Exception as e:  # noqa
+            r = None; out = 'raises'
+        want = None
+        if out == 'ok':
+            ids2 = dict(ids)
+            pa2 = enc_list(r.paxes, lambda k_: f'P {ids2.setdefault(id(k_), len(ids2))} {k_._numel}')
+            va2 = enc_list(r.vaxes, lambda e: ptgen.enc_axis(e, ids2))
+            ph = r.physical.to(torch.float64) if r.physical.dtype == torch.bool else r.physical
+            want = f'{enc_list(ph.contiguous().reshape(-1).tolist() if ph.numel() else [], enc_ext)} {pa2} {va2} {enc_ext(float(r.default))}'
+        reqs.append(f'C06.{name} {et} {args} {len(ids) + 5}'.replace('  ', ' '))
+        meta.append((case, out, want, name))
+        ctx.count(f'shape-representation.{name}.{out}')
+    for k in range(60 if ctx.quick else 1200):
+        nd = ctx.rng.choice([1, 1, 2, 2, 3])
+        types = [ptgen.random_type(ctx.rng, depth=ctx.rng.choice([1, 2, 2]), sizes=[1, 2, 3, 2, 4]) for _ in range(nd)]
+        if math.prod(ty_numel(t) for t in types) > 300 or any(ty_numel(t) == 0 for t in types):
+            continue
+        t = random_pt(ctx.rng, types, defaults=[0.0, 1.0, -math.inf], specials=0.0)
+        if any(k_._numel == 0 for k_ in t.paxes):
+            continue
+        shp = list(t.shape)
+        # __getitem__: a prefix of the index, in range
+        for _ in range(3):
+            m = ctx.rng.randint(1, nd)
+            vis = [ctx.rng.randrange(n) for n in shp[:m]]
+            job('getitem', t, enc_list(vis), lambda x, vis=vis: x[tuple(vis)])
+        perm = list(range(nd)); ctx.rng.shuffle(perm)
+        job('permute', t, enc_list(perm), lambda x, perm=perm: x.permute(perm))
+        d0, d1 = ctx.rng.randrange(nd), ctx.rng.randrange(nd)
+        job('transpose', t, f'{d0} {d1}', lambda x: x.transpose(d0, d1))
+        job('T', t, '', lambda x: x.T)
+        job('flatten', t, '', lambda x: x.flatten())
+        d = ctx.rng.randint(0, nd)
+        job('unsqueeze', t, f'{d}', lambda x: x.unsqueeze(d))
+        # expand: leading new dimensions, size-1 dimensions grown, occasionally an impossible target
+        sizes = [ctx.rng.choice([2, 3]) for _ in range(ctx.rng.choice([0, 1, 2]))] + \
+                [(ctx.rng.choice([2, 3]) if n == 1 and ctx.rng.random() < 0.6 else n) for n in shp]
+        if ctx.rng.random() < 0.1 and sizes:
+            sizes[-1] += 1
+        job('expand', t, enc_list(sizes), lambda x, sizes=sizes: x.expand(*sizes))
+        tb = random_pt(ctx.rng, types, bool_=True)
+        if not any(k_._numel == 0 for k_ in tb.paxes):
+            dim = ctx.rng.randrange(nd); keep = ctx.rng.random() < 0.5
+            job('any', tb, f'{dim} {"T" if keep else "F"}', lambda x: x.any(dim, keepdim=keep))
+    fix = {'permute': 0, 'transpose': 0, 'T': 0, 'flatten': 0, 'unsqueeze': 0, 'any': 0}
+    reqs = [' '.join(r.split()[:-1]) if r.split()[0][4:] in fix else r for r in reqs]
+    for (case, out, want, name), rep in zip(meta, ctx.driver.ask_many(reqs)):
+        if isinstance(rep, Exception):
+            raise rep
+        ctx.evaluations += 1
+        if out != 'ok' or not rep.startswith('ok'):
+            if rep.split()[0] != out:
+                ctx.disagree(f'Sh.{name}: outcome (tensor / raises)', case, out, rep[:120])
+            continue
+        toks = rep.split()[1:]
+        i = 0; L = int(toks[i]); phys = toks[i + 1:i + 1 + L]; i += 1 + L
+        P = int(toks[i]); pax = toks[i + 1:i + 1 + 2 * P]; i += 1 + 2 * P
+        mp = [str(L)] + phys + [str(P)] + sum((['P', pax[2 * j], pax[2 * j + 1]] for j in range(P)), []) + toks[i:-1]
+        if canon(mp) != canon(want.split()):
+            ctx.disagree(f'Sh.{name}: representation of the result', case, want, ' '.join(mp))
+        elif toks[-1] != 'T':
+            ctx.disagree(f'Sh.{name}: the model\'s result is not well formed (PT.wf)', case, want, rep)
+
+
 def run_unit_factors(ctx, reqs, meta):
     """index types with a factor of ONE element that is not the unit axis (a one-component sum `0 + () + 0`, as patterned JSON
     weights can spell it) at the start, in the middle or at the END of a product, each operand representing the same type in its own
@@ -390,6 +476,7 @@ def run(ctx):
     run_float32(ctx, 60 if ctx.quick else 600)
     run_binary_representation(ctx)
     run_reshape_representation(ctx)
+    run_shape_representation(ctx)
     reqs, meta = [], []
     run_unit_factors(ctx, reqs, meta)
     U, B = unary_ops(), binary_ops()
